@@ -11,9 +11,14 @@
       tuples ≤ (|payload| + |remainder|)/6 + 1                       frame without the LLP flag
       tuples ≤ |payload|/7 + 1 + (|payload| + |remainder|)/6 + 1     frame with the LLP flag.
   The bound does not mention the fuel and holds for every fuel (`gapLoop_items_need`).
-  The second pass: on the first frame (or with an empty remainder) the loop, after the low-latency prefix, restarts from
-  `payload[ptdp_offset:]` wherever the offset field points — also back into the low-latency prefix — so the single-pass
-  figure `(|payload| + |remainder|)/6 + 2` (review-rev1, C08 item 4) is not claimed for flagged frames.
+  The second pass is real: on the first frame (or with an empty remainder) the loop, after the low-latency prefix,
+  restarts from `payload[ptdp_offset:]` wherever the offset field points — also back INTO the low-latency prefix.  Witness
+  on the real code (/repo, checked by running it; not kernel-checkable because of the Golay tables): the 7-byte unit
+  `BA FE 0A 08 00 10 FF` is an empty low-latency PTDP + continuation byte, and read from its second byte (wrapping into
+  the next unit) it is a 1-byte normal PTDP; the frame `unit × 6` (last byte 00), 42 bytes, LLP flag set,
+  `ptdp_offset = 1`, `get_aligned_payload(True, b"")` yields 13 tuples (6 low-latency + 6 normal + the closing one);
+  `unit × 30`, 210 bytes: 61.  So the single-pass figure `(|payload| + |remainder|)/6 + 2` (review-rev1, C08 item 4:
+  9 resp. 37) is FALSE for flagged frames; the two-pass bound below gives 15 resp. 67.
 -/
 import Acra.Lemmas.Chapter7GapStride
 namespace Acra.Props.C08
